@@ -24,6 +24,7 @@ Node kinds
   ("cycle",) ("unknown", text)
 """
 from .facts import place_str
+from .cfg import cfg_of, _idx
 
 VP_TRAIT_METHODS = {
     ("std::clone::Clone", "clone"),
@@ -130,10 +131,12 @@ class Prov:
         return d
 
     # ---------------------------------------------------------------- origin
-    def operand(self, fn, op):
+    def operand(self, fn, op, site=None):
+        """origin of an operand; with `site` = (block, index) only definitions that can reach the
+        site are considered (flow-sensitive by reachability), otherwise all definitions"""
         k = op["k"]
         if k in ("copy", "move"):
-            return self.place(fn, op["place"])
+            return self.place(fn, op["place"], site)
         if k == "const":
             ck = op.get("ck")
             if ck in ("str", "bytes"):
@@ -143,12 +146,19 @@ class Prov:
             if ck == "fn":
                 return ("fn", op["fn"])
             if ck == "item":
+                if "promoted" in op and not isinstance(op["promoted"], bool):
+                    pf = fn.promoted.get(op["promoted"])
+                    if pf is None and fn.kind == "promoted":
+                        pf = None
+                    if pf is not None:
+                        return self.local(pf, 0)
+                    return ("item", "%s::{promoted#%s}" % (op["item"], op["promoted"]))
                 return ("item", op["item"])
             return ("const", ck or "other", op.get("text", ""))
         return ("unknown", op.get("text", k))
 
-    def place(self, fn, pl):
-        o = self.local(fn, pl["l"])
+    def place(self, fn, pl, site=None):
+        o = self.local(fn, pl["l"], site)
         return self.apply_proj(fn, o, pl["p"])
 
     def apply_proj(self, fn, o, proj):
@@ -179,17 +189,30 @@ class Prov:
             i += 1
         return o
 
-    def local(self, fn, l):
-        key = (fn.key, l)
+    def _reaches(self, fn, dsite, usite):
+        (db, di), (ub, ui) = dsite, usite
+        cfg = cfg_of(fn)
+        if db == ub:
+            if _idx(di) < _idx(ui):
+                return True
+            return db in cfg.reachable_from(db)
+        return ub in cfg.reachable_from(db)
+
+    def local(self, fn, l, site=None):
+        defs = self.defs(fn).get(l, [])
+        nsrc = len(defs) + (1 if 1 <= l <= fn.arg_count else 0)
+        if nsrc <= 1:
+            site = None
+        key = (fn.key, l, site)
         m = self._memo.get(key)
         if m is not None:
             return m
         self._memo[key] = ("cycle",)
-        o = self._local(fn, l)
+        o = self._local(fn, l, site)
         self._memo[key] = o
         return o
 
-    def _local(self, fn, l):
+    def _local(self, fn, l, site):
         whole = []
         updates = []
         if 1 <= l <= fn.arg_count:
@@ -201,6 +224,8 @@ class Prov:
                 whole.append(("param", l, fn.names.get(l, "_%d" % l)))
         for kind, bid, i, x in self.defs(fn).get(l, []):
             if kind == "setdiscr":
+                continue
+            if site is not None and not self._reaches(fn, (bid, i), site):
                 continue
             proj = x["dst"]["p"]
             path = tuple(e["name"] for e in proj if e["k"] == "field")
@@ -230,26 +255,26 @@ class Prov:
             base = ("upd", base, tuple(sorted(set(updates), key=repr)))
         return base
 
-    def rvalue(self, fn, rv, site):
+    def rvalue(self, fn, rv, site=None):
         k = rv["k"]
         if k == "use":
-            return self.operand(fn, rv["op"])
+            return self.operand(fn, rv["op"], site)
         if k == "ref" or k == "rawptr":
-            return self.place(fn, rv["place"])
+            return self.place(fn, rv["place"], site)
         if k == "cast":
-            inner = self.operand(fn, rv["op"])
+            inner = self.operand(fn, rv["op"], site)
             ck = rv["cast"]
             if ck.startswith("PointerCoercion") or ck.startswith("PtrToPtr") or ck.startswith("Transmute"):
                 return inner
             return ("cast", ck.split("(")[0], inner)
         if k == "binop":
-            return ("binop", rv["op"], self.operand(fn, rv["a"]), self.operand(fn, rv["b"]))
+            return ("binop", rv["op"], self.operand(fn, rv["a"], site), self.operand(fn, rv["b"], site))
         if k == "unop":
-            return ("unop", rv["op"], self.operand(fn, rv["a"]))
+            return ("unop", rv["op"], self.operand(fn, rv["a"], site))
         if k == "discriminant":
-            return ("discr", self.place(fn, rv["place"]))
+            return ("discr", self.place(fn, rv["place"], site))
         if k == "aggregate":
-            ops = [self.operand(fn, o) for o in rv["ops"]]
+            ops = [self.operand(fn, o, site) for o in rv["ops"]]
             a = rv["agg"]
             if a == "adt":
                 name = rv["adt"] + "::" + rv["variant"]
@@ -258,16 +283,17 @@ class Prov:
                 return ("closure", rv["closure"], tuple(zip([strip_ref_prefix(x) for x in rv["fields"]], ops)))
             return ("agg", a, tuple((str(i), o) for i, o in enumerate(ops)))
         if k == "repeat":
-            return ("agg", "repeat", (("0", self.operand(fn, rv["op"])),))
+            return ("agg", "repeat", (("0", self.operand(fn, rv["op"], site)),))
         return ("unknown", rv.get("text", k))
 
     def call_origin(self, fn, t, bid):
         c = t["callee"]
-        args = tuple(self.operand(fn, a) for a in t["args"])
+        site = (bid, "t")
+        args = tuple(self.operand(fn, a, site) for a in t["args"])
         if callee_is_vp(c) and args:
             return ("vp", c["name"], args[0])
         if c["key"] == "<indirect>":
-            return ("call", "<indirect>", (self.operand(fn, c["indirect"]),) + args, None, (fn.key, bid))
+            return ("call", "<indirect>", (self.operand(fn, c["indirect"], site),) + args, None, (fn.key, bid))
         return ("call", c["key"], args, c.get("resolved"), (fn.key, bid))
 
     # ---------------------------------------------------------------- closures
@@ -292,7 +318,7 @@ class Prov:
         parent, bid, i, st = site
         for fname, op in zip(st["rv"]["fields"], st["rv"]["ops"]):
             if strip_ref_prefix(fname) == name:
-                return self.operand(parent, op)
+                return self.operand(parent, op, (bid, i))
         return ("upvar", name)
 
     def closure_use(self, fn):
@@ -303,7 +329,7 @@ class Prov:
         parent, bid, i, st = site
         for cb, t in parent.calls():
             for ai, a in enumerate(t["args"]):
-                o = peel(self.operand(parent, a))
+                o = peel(self.operand(parent, a, (cb, "t")))
                 if o[0] == "closure" and o[1] == fn.key:
                     return parent, cb, t, ai
         return None
@@ -319,11 +345,22 @@ class Prov:
         if h is None or h[0] != ai or l not in h[1]:
             return ("cparam", l, name, c["key"])
         role, argi = h[1][l]
-        return ("bound", role, self.operand(parent, t["args"][argi]))
+        return ("bound", role, self.operand(parent, t["args"][argi], (cb, "t")))
 
     # ---------------------------------------------------------------- helpers for rules
-    def call_args(self, fn, t):
-        return [self.operand(fn, a) for a in t["args"]]
+    def call_args(self, fn, t, bid=None):
+        """origins of the arguments of call terminator t (evaluated at the call site when the block is given)"""
+        if bid is None:
+            for b in fn.order:
+                if fn.blocks[b]["term"] is t:
+                    bid = b
+                    break
+        site = (bid, "t") if bid is not None else None
+        return [self.operand(fn, a, site) for a in t["args"]]
+
+    def ret(self, fn):
+        """flow-insensitive origin of the return place"""
+        return self.local(fn, 0)
 
     def mutations(self, fn, l):
         """calls that receive `&mut local` (directly or via reborrow temps)"""
